@@ -153,7 +153,7 @@ pub fn run(tape: &[u8], cx: &Cx) -> Outcome {
     let (rows, nullable) = match res {
         Ok(x) => x,
         Err(msg) => {
-            if rx::is_overflow(&msg) {
+            if rx::is_overflow(&msg, prog.max_loop_bound()) {
                 return Outcome::discarded("loop-range arithmetic overflow (documented panic)");
             }
             o.fail("C10/panics", format!("regex replace panicked: {}", msg));
